@@ -17,7 +17,10 @@ def register(cls):
 
 class ExcelType:
 
-    __slots__ = ('value')
+    __slots__ = ('value',)
+
+    def __getnewargs__(self):
+        return (self.value,)
 
     native_types = ()
 
